@@ -258,6 +258,14 @@ def witness(ctx, res, env, st, cond, extra_assumptions=()):
 
 
 def no_panic(ctx, res, env, st, extra_assumptions=(), what=''):
+    if len(st.panics) > 3:
+        # one query for "any panic reachable"; only a satisfiable (or undecided) answer is broken down per panic site
+        assertions = list(env.assumptions) + list(st.assumed) + list(extra_assumptions) + [z3.Or(*[c for c, _ in st.panics])]
+        verdict, model, dt = ctx.decider.check(assertions)
+        res.queries += 1
+        res.solver_time += dt
+        if verdict == 'unsat':
+            return True
     for cond, msg in st.panics:
         assertions = list(env.assumptions) + list(st.assumed) + list(extra_assumptions) + [cond]
         verdict, model, dt = ctx.decider.check(assertions)
@@ -2060,5 +2068,352 @@ def ob_multi_job_scan(ctx, k):
         res.witnesses = int(saw_ok) + int(saw_fail)
         if not saw_ok:
             res.status, res.detail = 'inconclusive', 'vacuous: no successful path'
+    res.time = time.time() - t0
+    return res
+
+
+# ---------------------------------------------------------------------------------------------------------------------
+# end-to-end: the real evaluator over the real time-window constraint and the real schedule update (shadow tour)
+
+def ob_insertion_e2e(ctx, k, n_tasks, closed=True, bits=16):
+    """C06 end to end, incl. multi-task jobs: `eval_single` / `eval_multi` (real MIR) where `GoalContext::evaluate` is the
+    real `TransportConstraint::evaluate_activity` and `GoalContext::accept_route_state` is the real `update_route_schedule`
+    (so the shadow tour of a multi job carries exactly the state the real code computes - or fails to compute), the cost
+    estimate per candidate is a fresh symbol (it only drives which alternative is selected: every selection is explored).
+    Claim: on a feasible tour of k jobs, Success => the tour with all tasks at the returned positions, in the job's
+    order, is feasible for the independent forward simulation; for a single-task job additionally Failure => no leg is
+    feasible.  (Failure of a multi-task job may miss feasible combinations: greedy by design, not claimed.)"""
+    from symex import DynV
+    name = f'insertion_e2e[k={k},{"closed" if closed else "open"},tasks={n_tasks}]'
+    res = Result(name)
+    res.bounds = (f'tour of {k} jobs ({"closed" if closed else "open"}); job with {n_tasks} task(s) (one place, one symbolic window each) in fixed order; '
+                  f'times integer-valued in [0,2^{bits}] (window ends may be Float::MAX); routing uninterpreted in [0,2^{bits}]; exhaustive legs; '
+                  f'symbolic cost per candidate')
+    t0 = time.time()
+    fn = ctx.prog.find_free('eval_multi' if n_tasks > 1 else 'eval_single')
+    ea = ctx.prog.find_method('TransportConstraint', 'evaluate_activity')
+    if len(ea) != 1:
+        raise Inconclusive('TransportConstraint::evaluate_activity not found')
+
+    class Env(drivers.Env):
+        def override(self, engine, st, callee, args, dest_ty):
+            if callee.endswith('GoalContext::evaluate'):
+                mc = deref_all(args[1])
+                return engine.exec_fn(st, ea[0], [RefV(Cell(transport_constraint(self)), 0), mc.payload[1][1], mc.payload[1][2]])
+            if callee.endswith('GoalContext::estimate'):
+                self.n_cost += 1
+                return self.struct('insertions::InsertionCost', data=VecV([self.sym_f_path(st, f'cost_call{self.n_cost}', 0, 2 ** 20)]))
+            if callee.endswith('GoalContext::accept_route_state'):
+                f = ctx.prog.find_free('update_route_schedule')
+                engine.exec_fn(st, f, [args[1], self.dyn_activity(), self.dyn_transport()])
+                return UnitV()
+            if callee.endswith('Multi::permutations'):
+                return VecV([VecV([ArcV(c) for c in self.services])])
+            if callee.endswith('InsertionCost::max_value'):
+                return RefV(Cell(self.struct('insertions::InsertionCost', data=VecV([FV.max_value()]))), 0)
+            if callee.endswith('UnwrapValue>::unwrap_value'):
+                cf = args[0]
+                v = cf.variant()
+                if v is None:
+                    v = 0 if engine.split_bool(st, cf.discr == 0) else 1
+                return cf.payload[v][0]
+            return super().override(engine, st, callee, args, dest_ty)
+
+        def dyn_call(self, engine, st, trait, method, args, dest_ty):
+            if trait == 'ResultSelector' and method == 'select_cost':
+                return engine.exec_fn(st, self._trait_default('ResultSelector', 'select_cost'), args)
+            return super().dyn_call(engine, st, trait, method, args, dest_ty)
+
+    env = Env(ctx.prog, ctx.layout, bits)
+    eng = symex.Engine(ctx.prog, ctx.layout, env)
+    holder = {}
+
+    def body(st):
+        env.assumptions.clear()
+        env.n_cost = 0
+        spec = TourSpec(env, k, closed)
+        tasks = [spec.sym_job(f'task{i}') for i in range(n_tasks)]
+        holder['spec'], holder['tasks'] = spec, tasks
+        rc = spec.build()
+        rc = run_update(ctx, env, eng, st, rc)
+        singles = []
+        for t in tasks:
+            place = env.struct('jobs::Place', location=mk_option(True, t['loc'], ty='Option<usize>'), duration=t['dur'],
+                               times=VecV([EnumV('domain::TimeSpan', 0, {0: [env.time_window(t['tws'], t['twe'])]})]))
+            singles.append(ArcV(Cell(env.struct('jobs::Single', places=VecV([place]), dimens=StateV()))))
+        env.services = [s.cell for s in singles]
+        st.user_services = list(env.services)
+        route_costs = env.struct('insertions::InsertionCost', data=VecV([FV.const(0)]))
+        position = EnumV('evaluators::InsertionPosition', 0, {})
+        none_cost = mk_option(False, ty='Option<InsertionCost>')
+        if n_tasks > 1:
+            mo = ctx.layout.fields('jobs::Multi')
+            multi = Agg('struct', [Opaque(f) for f in mo], 'jobs::Multi')
+            multi.fields[mo.index('jobs')] = VecV(singles)
+            marc = ArcV(Cell(multi))
+            job = EnumV('jobs::Job', 1, {1: [marc]})
+            second = RefV(Cell(marc), 0)
+        else:
+            job = EnumV('jobs::Job', 0, {0: [singles[0]]})
+            second = RefV(Cell(singles[0]), 0)
+        eval_ctx = env.struct('evaluators::EvaluationContext', goal=RefV(Cell(Opaque('goal')), 0), job=RefV(Cell(job), 0),
+                              leg_selection=RefV(Cell(EnumV('selectors::LegSelection', 1, {})), 0), result_selector=RefV(Cell(DynV('selector')), 0))
+        return eng.exec_fn(st, fn, [RefV(Cell(eval_ctx), 0), RefV(Cell(Opaque('SolutionContext')), 0), RefV(Cell(rc), 0), second, position, route_costs, none_cost])
+
+    paths = eng.explore(body, max_paths=60000)
+    res.paths = len(paths)
+    res.functions |= eng.functions_used
+    saw_ok = saw_fail = False
+    order = ctx.layout.fields('insertions::InsertionSuccess')
+    n_legs = k + 1
+
+    def case_of(model, spec, tasks):
+        def job(j):
+            return {'loc': _ev_int(model, j['loc'].t), 'dur': _ev_f(model, j['dur']), 'tws': _ev_f(model, j['tws']), 'twe': _ev_f(model, j['twe'])}
+        return make_case('insertion_e2e', env, spec, model, extra={'tasks': [job(t) for t in tasks]})
+
+    for st, out in paths:
+        spec, tasks = holder['spec'], holder['tasks']
+        assume = spec.matrix_assumptions(spec.jobs + tasks) + [spec.feasible()]
+        if out is None:
+            if not no_panic(ctx, res, env, st, assume, what=name):
+                break
+            continue
+        if out.variant() is None:
+            res.status, res.detail = 'inconclusive', 'symbolic result variant'
+            break
+        if out.variant() == 0:
+            s = out.payload[0][0]
+            acts = s.fields[order.index('activities')].items
+            if len(acts) != n_tasks:
+                res.status, res.detail = 'inconclusive', f'success with {len(acts)} activities for {n_tasks} tasks (structural; no replay)'
+                break
+            placed = []
+            for x in acts:
+                a, idx = x.fields[0], x.fields[1]
+                cell = env.field(a, 'route::Activity', 'job').payload[1][0].cell
+                placed.append((st.user_services.index(cell), idx))
+            if [p[0] for p in placed] != list(range(n_tasks)):
+                res.status, res.detail = 'inconclusive', f'tasks returned in order {[p[0] for p in placed]} (structural; no replay)'
+                break
+            # final tour by sequential insertion; a symbolic index is split over its possible legs
+            alts = [([], z3.BoolVal(True))]
+            for t, idx in placed:
+                nxt = []
+                for seq, cond in alts:
+                    c = idx.concrete()
+                    legs = [c] if c is not None else range(0, n_legs + t)
+                    for p in legs:
+                        nxt.append((seq + [p], z3.And(cond, idx.t == p) if c is None else cond))
+                alts = nxt
+            options = []
+            extra = []
+            for seq, cond in alts:
+                lst = list(spec.jobs)
+                ok = all(0 <= p <= len(lst) + i for i, p in enumerate(seq)) and all(seq[i + 1] >= seq[i] + 1 for i in range(len(seq) - 1))
+                if not ok:
+                    continue
+                for t, p in enumerate(seq):
+                    lst.insert(p, tasks[t])
+                options.append(z3.And(cond, spec.feasible(lst)))
+            claim = z3.Or(*options) if options else z3.BoolVal(False)
+            what = f'{name}: success => the tour with the tasks at the returned positions (job order kept) is feasible'
+            saw_ok = saw_ok or witness(ctx, res, env, st, z3.BoolVal(True), assume)
+        else:
+            if n_tasks > 1:
+                saw_fail = saw_fail or witness(ctx, res, env, st, z3.BoolVal(True), assume)
+                if not no_panic(ctx, res, env, st, assume, what=name):
+                    break
+                continue
+            claim = z3.And(*[z3.Not(spec.feasible(spec.jobs[:p] + [tasks[0]] + spec.jobs[p:])) for p in range(n_legs)])
+            what = f'{name}: failure => no leg is feasible'
+            saw_fail = saw_fail or witness(ctx, res, env, st, z3.BoolVal(True), assume)
+        res.claims += 0
+        if not decide_claim(ctx, res, env, st, claim, assume, what=what):
+            if res.status == 'violated' and res.model is not None:
+                res.case = case_of(res.model, spec, tasks)
+            break
+        if not no_panic(ctx, res, env, st, assume, what=name):
+            break
+    if res.status == 'holds':
+        res.witnesses = int(saw_ok) + int(saw_fail)
+        if not (saw_ok and saw_fail):
+            res.status, res.detail = 'inconclusive', f'vacuous: success={saw_ok} failure={saw_fail}'
+    res.time = time.time() - t0
+    return res
+
+
+def ob_capacity_e2e(ctx, k, shape, closed=True):
+    """C06 end to end for capacity, incl. pickup-and-delivery: `eval_single` / `eval_multi` (real MIR) where
+    `GoalContext::evaluate` is the real `CapacitatedMultiTrip::evaluate_activity` and `GoalContext::accept_route_state` is
+    the real `recalculate_states` on the shadow tour.  Tour of k jobs with arbitrary mixed static/shipment demand.
+    shape 'single': one task with any (single-kind) demand - Success => the reference load profile of the tour with the
+    job at the returned position stays within capacity; Failure => no position does.  shape 'shipment': pickup task then
+    delivery task of the same symbolic amount - Success => pickup before delivery and the profile stays within capacity."""
+    from symex import DynV
+    n_tasks = 1 if shape == 'single' else 2
+    name = f'capacity_e2e[k={k},{"closed" if closed else "open"},{shape}]'
+    res = Result(name)
+    res.bounds = (f'tour of {k} jobs with arbitrary mixed static/dynamic demand ({"closed" if closed else "open"}); '
+                  + ('job: one task, any single-kind demand' if shape == 'single' else 'job: shipment (pickup task, then delivery task, same symbolic amount)')
+                  + '; single dimension, amounts in [0,2^14], capacity in [0,2^15]; no reloads; exhaustive legs; symbolic cost per candidate')
+    t0 = time.time()
+    fn = ctx.prog.find_free('eval_multi' if n_tasks > 1 else 'eval_single')
+    ev = ctx.prog.find_method('CapacitatedMultiTrip', 'evaluate_activity')
+    rs = ctx.prog.find_method('CapacitatedMultiTrip', 'recalculate_states', trait='MultiTrip')
+    if len(ev) != 1 or len(rs) != 1:
+        raise Inconclusive('CapacitatedMultiTrip::evaluate_activity / recalculate_states not found')
+
+    class Env(drivers.Env):
+        def override(self, engine, st, callee, args, dest_ty):
+            if callee.endswith('GoalContext::evaluate'):
+                mc = deref_all(args[1])
+                return engine.exec_fn(st, ev[0], [RefV(Cell(multitrip(self)), 0), mc.payload[1][1], mc.payload[1][2]])
+            if callee.endswith('GoalContext::estimate'):
+                self.n_cost += 1
+                return self.struct('insertions::InsertionCost', data=VecV([self.sym_f_path(st, f'cost_call{self.n_cost}', 0, 2 ** 20)]))
+            if callee.endswith('GoalContext::accept_route_state'):
+                engine.exec_fn(st, rs[0], [RefV(Cell(multitrip(self)), 0), args[1]])
+                return UnitV()
+            if callee.endswith('Multi::permutations'):
+                return VecV([VecV([ArcV(c) for c in self.services])])
+            if callee.endswith('InsertionCost::max_value'):
+                return RefV(Cell(self.struct('insertions::InsertionCost', data=VecV([FV.max_value()]))), 0)
+            if callee.endswith('UnwrapValue>::unwrap_value'):
+                cf = args[0]
+                v = cf.variant()
+                if v is None:
+                    v = 0 if engine.split_bool(st, cf.discr == 0) else 1
+                return cf.payload[v][0]
+            return super().override(engine, st, callee, args, dest_ty)
+
+        def dyn_call(self, engine, st, trait, method, args, dest_ty):
+            if trait == 'ResultSelector' and method == 'select_cost':
+                return engine.exec_fn(st, self._trait_default('ResultSelector', 'select_cost'), args)
+            return super().dyn_call(engine, st, trait, method, args, dest_ty)
+
+    env = Env(ctx.prog, ctx.layout, 16)
+    env.type_subst = {'T': 'load::SingleDimLoad'}
+    eng = symex.Engine(ctx.prog, ctx.layout, env)
+    holder = {}
+
+    def body(st):
+        env.assumptions.clear()
+        env.n_cost = 0
+        capacity = env.sym_i('capacity', 0, 2 ** 15, 'i32')
+        demands = [sym_demand(env, f'd{i + 1}', 'any') for i in range(k)]
+        if shape == 'single':
+            tdem = [sym_demand(env, 'task0', 'any')]
+        else:
+            q = env.sym_i('shipment', 0, 2 ** 14, 'i32')
+            zero = IV(0, 'i32')
+            tdem = [{'sp': zero, 'dp': q, 'sd': zero, 'dd': zero}, {'sp': zero, 'dp': zero, 'sd': zero, 'dd': q}]
+        holder.update(capacity=capacity, demands=demands, tdem=tdem)
+        rc = capacity_tour(env, k, closed, capacity, demands)
+        cell = Cell(rc)
+        eng.exec_fn(st, rs[0], [RefV(Cell(multitrip(env)), 0), RefV(cell, 0, True)])
+        rc = cell.v
+        singles = []
+        for i, d in enumerate(tdem):
+            place = env.struct('jobs::Place', location=mk_option(True, IV(90 + i), ty='Option<usize>'), duration=FV.const(0),
+                               times=VecV([EnumV('domain::TimeSpan', 0, {0: [env.time_window(FV.const(0), FV.max_value())]})]))
+            singles.append(ArcV(Cell(env.struct('jobs::Single', places=VecV([place]), dimens=StateV({'job_demand': demand_v(env, d)})))))
+        env.services = [s.cell for s in singles]
+        st.user_services = list(env.services)
+        route_costs = env.struct('insertions::InsertionCost', data=VecV([FV.const(0)]))
+        position = EnumV('evaluators::InsertionPosition', 0, {})
+        none_cost = mk_option(False, ty='Option<InsertionCost>')
+        if n_tasks > 1:
+            mo = ctx.layout.fields('jobs::Multi')
+            multi = Agg('struct', [Opaque(f) for f in mo], 'jobs::Multi')
+            multi.fields[mo.index('jobs')] = VecV(singles)
+            marc = ArcV(Cell(multi))
+            job = EnumV('jobs::Job', 1, {1: [marc]})
+            second = RefV(Cell(marc), 0)
+        else:
+            job = EnumV('jobs::Job', 0, {0: [singles[0]]})
+            second = RefV(Cell(singles[0]), 0)
+        eval_ctx = env.struct('evaluators::EvaluationContext', goal=RefV(Cell(Opaque('goal')), 0), job=RefV(Cell(job), 0),
+                              leg_selection=RefV(Cell(EnumV('selectors::LegSelection', 1, {})), 0), result_selector=RefV(Cell(DynV('selector')), 0))
+        return eng.exec_fn(st, fn, [RefV(Cell(eval_ctx), 0), RefV(Cell(Opaque('SolutionContext')), 0), RefV(Cell(rc), 0), second, position, route_costs, none_cost])
+
+    paths = eng.explore(body, max_paths=60000)
+    res.paths = len(paths)
+    res.functions |= eng.functions_used
+    saw_ok = saw_fail = False
+    order = ctx.layout.fields('insertions::InsertionSuccess')
+    n_legs = k + 1
+
+    def case_of(m):
+        evd = lambda d: {key: _ev_int(m, d[key].t) for key in ('sp', 'dp', 'sd', 'dd')}
+        return {'kind': 'insertion_e2e', 'with_capacity': True, 'closed': closed, 'shift_start': 0, 'dep0': 0, 'shift_end': 100000 if closed else None, 'l0': 0, 'lend': 0,
+                'capacity': _ev_int(m, holder['capacity'].t), 'dur': [], 'dist': [], 'dur_default': 0, 'dist_default': 0,
+                'jobs': [{'loc': i + 1, 'dur': 0, 'tws': 0, 'twe': None, 'demand': evd(d)} for i, d in enumerate(holder['demands'])],
+                'tasks': [{'loc': 90 + i, 'dur': 0, 'tws': 0, 'twe': None, 'demand': evd(d)} for i, d in enumerate(holder['tdem'])]}
+
+    for st, out in paths:
+        capacity, demands, tdem = holder['capacity'], holder['demands'], holder['tdem']
+        within = lambda ds: z3.And(*[l <= capacity.t for l in ref_profile(ds)])
+        assume = [within(demands)]
+        if out is None:
+            if not no_panic(ctx, res, env, st, assume, what=name):
+                break
+            continue
+        if out.variant() is None:
+            res.status, res.detail = 'inconclusive', 'symbolic result variant'
+            break
+        if out.variant() == 0:
+            s = out.payload[0][0]
+            acts = s.fields[order.index('activities')].items
+            if len(acts) != n_tasks:
+                res.status, res.detail = 'inconclusive', f'success with {len(acts)} activities for {n_tasks} tasks (structural; no replay)'
+                break
+            placed = []
+            for x in acts:
+                a, idx = x.fields[0], x.fields[1]
+                cell = env.field(a, 'route::Activity', 'job').payload[1][0].cell
+                placed.append((st.user_services.index(cell), idx))
+            if [p[0] for p in placed] != list(range(n_tasks)):
+                res.status, res.detail = 'inconclusive', f'tasks returned in order {[p[0] for p in placed]} (structural; no replay)'
+                break
+            alts = [([], z3.BoolVal(True))]
+            for t, idx in placed:
+                nxt = []
+                for seq, cond in alts:
+                    c = idx.concrete()
+                    for p in ([c] if c is not None else range(0, n_legs + t)):
+                        nxt.append((seq + [p], z3.And(cond, idx.t == p) if c is None else cond))
+                alts = nxt
+            options = []
+            for seq, cond in alts:
+                lst = list(demands)
+                if not (all(0 <= p <= len(lst) + i for i, p in enumerate(seq)) and all(seq[i + 1] >= seq[i] + 1 for i in range(len(seq) - 1))):
+                    continue
+                for t, p in enumerate(seq):
+                    lst.insert(p, tdem[t])
+                options.append(z3.And(cond, within(lst)))
+            claim = z3.Or(*options) if options else z3.BoolVal(False)
+            what = f'{name}: success => load profile with the tasks at the returned positions (pickup before delivery) within capacity'
+            saw_ok = saw_ok or witness(ctx, res, env, st, z3.Or(*[tdem[0][key].t != 0 for key in ('sp', 'dp', 'sd', 'dd')]), assume)
+        else:
+            saw_fail = saw_fail or witness(ctx, res, env, st, z3.BoolVal(True), assume)
+            if n_tasks > 1:
+                # not claimed: the pickup is judged before the delivery position is known (conservatively, as if the load stayed
+                # on board to the end), so feasible pairs can be missed - allowed by the property for multi-task jobs
+                if not no_panic(ctx, res, env, st, assume, what=name):
+                    break
+                continue
+            claim = z3.And(*[z3.Not(within(demands[:p] + [tdem[0]] + demands[p:])) for p in range(n_legs)])
+            what = f'{name}: failure => no position keeps the load profile within capacity'
+        if not decide_claim(ctx, res, env, st, claim, assume, what=what):
+            if res.status == 'violated' and res.model is not None:
+                res.case = case_of(res.model)
+            break
+        if not no_panic(ctx, res, env, st, assume, what=name):
+            break
+    if res.status == 'holds':
+        res.witnesses = int(saw_ok) + int(saw_fail)
+        if not (saw_ok and saw_fail):
+            res.status, res.detail = 'inconclusive', f'vacuous: success={saw_ok} failure={saw_fail}'
     res.time = time.time() - t0
     return res
